@@ -27,6 +27,16 @@ class Applied:
         self.events: List[Dict[str, Any]] = []
         self.meta: List[Any] = []
         self.on = False
+        self.handed = None  # (request, mask bit) of the action about to be stepped, as the environment handed the mask out
+
+    def hand(self, env, a):
+        """Remember the mask bit the environment hands out NOW for entry a (the agent chooses with it; pre_timestep runs before
+        the action is executed)."""
+        try:
+            aname, opts = env.agent.action_manager.action_map[a]
+            self.handed = (list(env.agent.action_manager.form_request(aname, opts)), bool(env.action_masks()[a]))
+        except Exception:  # noqa - an entry that cannot be formed is not a request
+            self.handed = None
 
     def install(self):
         from primaite.simulator.sim_container import Simulation
@@ -43,6 +53,13 @@ class Applied:
                 mask = "allow" if bit else "deny"
             except Exception as e:  # noqa
                 mask = f"raised:{type(e).__name__}"
+            if rec.handed is not None and list(request) == rec.handed[0]:
+                # "a masked-out action never succeeds": the bit that counts for the agent is the one it was handed before the
+                # step (only the denying direction is taken over: what pre_timestep may legitimately end - a session timing
+                # out - is not held against the mask)
+                if not rec.handed[1]:
+                    mask = "deny"
+                rec.handed = None
             return (obs, leaf, mask, pw)
 
         def after(sim, tok, ret, exc, request, context=None):
@@ -110,6 +127,7 @@ def run_env(label: str, cfg: Dict[str, Any], steps: int, episodes: int, rng: ran
             a = rng.choice(power) if power and rng.random() < 0.45 else rng.randrange(n)
             acts.append(a)
             mark = len(rec.events)
+            rec.hand(env, a)
             try:
                 env.step(a)
             except Exception as e:  # noqa - a step that raises is C01's business; note it and start a new episode
@@ -191,6 +209,7 @@ def run_tour(facet: str, seed: int, rec: Applied, chk: common.Check, visits: int
             mark = len(rec.events)
             if a == "red-compromise":
                 tour.compromise(env.game, facet)
+            rec.hand(env, idx[a])
             try:
                 env.step(idx[a])
             except Exception as e:  # noqa - C01's business
